@@ -18,8 +18,14 @@ import logging
 from harness import oracle, common
 
 
+ORGANIC = ("H", "B", "C", "N", "O", "P", "S", "F", "Cl", "Br", "I")
+
+
 def is_placeholder_input(rsmi):
-    """free atomic H / O (radical single atoms) anywhere in the input"""
+    """The input contains an open-shell atom of the organic subset: free atomic [H] / [O] / [S] ..., or a radical
+    centre inside a molecule (C[CH2], C[C]C). These are the strings the pipeline uses as its own placeholders, and
+    atom-map removal (defined for closed-shell molecules only, C15 / C02) turns them into the saturated hydrides
+    ([S] -> S = H2S)."""
     sp = oracle.split_reaction(rsmi)
     if sp is None:
         return False
@@ -28,8 +34,7 @@ def is_placeholder_input(rsmi):
         if m is None:
             continue
         for a in m.GetAtoms():
-            if a.GetDegree() == 0 and a.GetSymbol() in ("H", "O") and a.GetTotalNumHs() == 0 \
-                    and a.GetFormalCharge() == 0:
+            if a.GetSymbol() in ORGANIC and a.GetNumRadicalElectrons() > 0:
                 return True
     return False
 
